@@ -112,9 +112,9 @@ func Sponge(rate int, ds byte, msg []byte, outLen int) []byte {
 	return out[:outLen]
 }
 
-func SHA3_256(m []byte) []byte   { return Sponge(136, 0x06, m, 32) }
-func SHA3_384(m []byte) []byte   { return Sponge(104, 0x06, m, 48) }
-func Keccak256(m []byte) []byte  { return Sponge(136, 0x01, m, 32) }
+func SHA3_256(m []byte) []byte        { return Sponge(136, 0x06, m, 32) }
+func SHA3_384(m []byte) []byte        { return Sponge(104, 0x06, m, 48) }
+func Keccak256(m []byte) []byte       { return Sponge(136, 0x01, m, 32) }
 func SHAKE128(m []byte, n int) []byte { return Sponge(168, 0x1F, m, n) }
 
 // ---- SP 800-185 ------------------------------------------------------------------
